@@ -455,7 +455,7 @@ int main(void) {
     k = split_sp(f[0], cfgt, 4);
     if (k != 3 && k != 4) { printf("BADCASE\n"); continue; }
     fam = atoi(cfgt[0]); conn = atoi(cfgt[1]); mm = atoi(cfgt[2]); pat = k == 4 ? atoi(cfgt[3]) : 0;
-    signal(SIGALRM, on_alarm); alarm(60);
+    signal(SIGALRM, on_alarm); alarm(5);
     nallocs = split_sp(f[1], at, MAXP); for (k = 0; k < nallocs; k++) allocs[k] = atol(at[k]);
     nsplan = split_sp(f[2], splan, MAXP); nrplan = split_sp(f[3], rplan, MAXP);
     nbeh = split_bar(f[5], beh, MAXB); nrbeh = split_bar(f[6], rbeh, MAXB);
